@@ -63,3 +63,12 @@ Print Assumptions C16_generic_window.
 Theorem C16_generic_exp : forall w s x, Signalo.Model.Generic.g_mve_step Signalo.Base.Arith.Qar w s x = Signalo.Model.MeanVar.mve_step w s x.
 Proof. exact Signalo.Proofs.Generic.gq_mve. Qed.
 Print Assumptions C16_generic_exp.
+
+(* No false alarm: the boolean reading of this property that the correspondence check evaluates on the IMPLEMENTATION's
+   outputs (Check/C16.v, verdict bit 2) can never fail on outputs that agree with the model (bit 1 clear); side conditions,
+   where there are any, are boolean and say which recorded observations the model comparison does not cover. *)
+From Coq Require Import NArith.
+From Signalo Require Base.Report Check.C16 Proofs.Sound_C16.
+Theorem C16_checker_no_false_alarm : forall c : Signalo.Check.C16.case, N.land (Signalo.Base.Report.code (Signalo.Check.C16.check c)) 3 <> 2%N.
+Proof. exact Signalo.Proofs.Sound_C16.C16_check_sound. Qed.
+Print Assumptions C16_checker_no_false_alarm.
